@@ -115,6 +115,18 @@ def hexOfBytes' (bs : Bytes) : String :=
   if bs.isEmpty then "-" else
   String.ofList (bs.foldr (fun b acc => hd (b.toNat / 16) :: hd (b.toNat % 16) :: acc) [])
 
+/-- `convof SET LABEL`: the pinned converter of an attribute, for the harness's oracles -/
+def handleConvOf : List String → String
+  | [st, label] => match specOf st label with
+    | some a => match a.conv with
+      | .ident => "ident" | .text => "text" | .validateString => "validateString" | .maybeNumeric => "maybeNumeric"
+      | .status => "status" | .enum cls soft an => s!"enum:{cls}:{if soft then 1 else 0}:{if an then 1 else 0}"
+      | .eflr c => s!"eflr:{c.getD "*"}" | .eflrOrText c => s!"eflrOrText:{c.getD "*"}"
+      | .dtime af => s!"dtime:{if af then 1 else 0}" | .numeric io => s!"numeric:{if io then 1 else 0}"
+      | .custom n => s!"custom:{n}"
+    | none => "unknown-attribute"
+  | _ => "bad"
+
 def handleAsg : List String → String
   | st :: label :: hc :: rest =>
     -- initial state (what the item constructor left in the attribute): value, units
